@@ -619,3 +619,69 @@ META = {
                  "liveness) + extracted-model differential correspondence + verified trace monitor as oracle",
     "claimed": False,
 }
+
+# mutants tried with bin/mutcheck (git apply -p1 from the simgrid root)
+MUTANTS = r"""
+# --- m1: release_dependencies starts the successor whatever its other dependencies (start() still vetoes; INITED successors become STARTING early): fired as correspondence break (no-failing-input-found)
+--- a/include/simgrid/s4u/Activity.hpp
++++ b/include/simgrid/s4u/Activity.hpp
+@@ -79,9 +79,7 @@
+       ActivityPtr b = successors_.back();
+       XBT_CVERB(s4u_activity, "Remove a dependency from '%s' on '%s'", get_cname(), b->get_cname());
+       b->dependencies_.erase(this);
+-      if (b->dependencies_solved()) {
+-        b->start();
+-      }
++      b->start();
+       successors_.pop_back();
+     }
+   }
+
+# --- m3: Activity::start ignores dependencies_solved(): must fire start-before-predecessor-finished (not run to the end: build queue)
+--- a/include/simgrid/s4u/Activity.hpp
++++ b/include/simgrid/s4u/Activity.hpp
+@@ -138,7 +138,7 @@
+   void start()
+   {
+     state_ = State::STARTING;
+-    if (dependencies_solved() && is_assigned()) {
++    if (is_assigned()) {
+       XBT_CVERB(s4u_activity, "'%s' is assigned to a resource and all dependencies are solved. Let's start", get_cname());
+       do_start();
+     } else {
+
+# --- m2: Exec::set_host no longer starts a vetoed exec: must fire activity-never-finishes (not run to the end)
+--- a/src/s4u/s4u_Exec.cpp
++++ b/src/s4u/s4u_Exec.cpp
+@@ -184,10 +184,6 @@
+ 
+   boost::static_pointer_cast<kernel::activity::ExecImpl>(pimpl_)->set_host(host);
+ 
+-  if (state_ == State::STARTING)
+-    // Setting the host may allow to start the activity, let's try
+-    start();
+-
+   return this;
+ }
+ 
+
+# --- h1: harmless: release_dependencies walks successors_ from the front: must stay quiet (not run to the end)
+--- a/include/simgrid/s4u/Activity.hpp
++++ b/include/simgrid/s4u/Activity.hpp
+@@ -76,13 +76,13 @@
+   void release_dependencies()
+   {
+     while (not successors_.empty()) {
+-      ActivityPtr b = successors_.back();
++      ActivityPtr b = successors_.front();
+       XBT_CVERB(s4u_activity, "Remove a dependency from '%s' on '%s'", get_cname(), b->get_cname());
+       b->dependencies_.erase(this);
+       if (b->dependencies_solved()) {
+         b->start();
+       }
+-      successors_.pop_back();
++      successors_.erase(successors_.begin());
+     }
+   }
+ 
+"""
